@@ -67,7 +67,8 @@ CONSTANTS
   UseOfflineFilter,     \* TRUE = uploads of OFFLINE users are skipped
   WStatus, WFriend, WPriv,   \* rank weights of _prioritize_uploads (1, 5, 100)
   StateChangeNotifies,  \* TRUE = on_transfer_state_changed requests a management cycle
-  SlotsChangeNotifies,  \* TRUE = a changed settings.transfers.limits.upload_slots leads to a cycle (poll, fix fbca5b4)
+  SlotsChangeNotifies,  \* TRUE = the idle management job polls the limit (fix fbca5b4); FALSE = it only waits for requests
+  ManagedEveryCycle,    \* TRUE = code: every cycle notes the limit it used; FALSE = only the poll does (broken variant)
   TaskEndNotifies,      \* FALSE = code: the end of an initialize-upload task requests nothing
   RequeueTail,          \* FALSE = code: a task that puts its upload back in the queue returns at once
   TrackPerUser          \* TRUE = code: a user is watched as long as ANY of its transfers is unfinished
@@ -91,6 +92,7 @@ VARIABLES
   mq,         \* items in _management_queue (maxsize 1)
   mpc,        \* management task: "waiting" (in queue.get), "sleeping" (timer pending), "due" (timer fired, wake-up in ready)
   flags,      \* _management_flags
+  managed,    \* _managed_upload_slots: the limit the last cycle used (what the idle poll compares with)
   grantLim,   \* the limit the last granting cycle saw, while its tasks are still waiting for their first step (else 0)
   tail,       \* upload -> its previous task is still in flight (after the state change that ended the attempt)
   truth,      \* user -> status on the server ("unknown": no such user)
@@ -100,8 +102,8 @@ VARIABLES
 
 attrs == <<slots, status, friend, priv>>
 know == <<truth, watch, told>>
-mgmt == <<mq, mpc, flags>>
-vars == <<slots, status, friend, priv, st, order, ready, mq, mpc, flags, grantLim, tail, truth, watch, told,
+mgmt == <<mq, mpc, flags, managed>>
+vars == <<slots, status, friend, priv, st, order, ready, mq, mpc, flags, managed, grantLim, tail, truth, watch, told,
           slotLeft, attrLeft, lifeLeft>>
 
 Max(a, b) == IF a >= b THEN a ELSE b
@@ -126,7 +128,7 @@ Init ==
   /\ st = [u \in Uploads |-> "NONE"]
   /\ order = <<>>
   /\ ready = <<>>
-  /\ mq = 0 /\ mpc = "waiting" /\ flags = {}
+  /\ mq = 0 /\ mpc = "waiting" /\ flags = {} /\ managed = slots
   /\ grantLim = 0
   /\ slotLeft = SlotBudget /\ attrLeft = AttrBudget /\ lifeLeft = LifeBudget
 
@@ -141,7 +143,7 @@ Req(r) ==
               THEN /\ mq' = 1
                    /\ ready' = IF mpc = "waiting" THEN Append(r, 0) ELSE r
               ELSE /\ mq' = mq /\ ready' = r
-         /\ UNCHANGED mpc
+         /\ UNCHANGED <<mpc, managed>>
     ELSE ready' = r /\ UNCHANGED mgmt
 
 NoReq(r) == ready' = r /\ UNCHANGED mgmt
@@ -190,7 +192,7 @@ TailEnds(u) ==
 SetSlots(n) ==
   /\ n \in 0..MaxSlots /\ n # slots
   /\ slots' = n
-  /\ IF SlotsChangeNotifies THEN Req(ready) ELSE NoReq(ready)
+  /\ NoReq(ready)                 \* assigning the setting raises no event; see Poll
   /\ UNCHANGED <<status, friend, priv, st, order, grantLim, tail, know>>
 
 Unfinished(o) == \E u \in Uploads : Owner(u) = o /\ st[u] \in {"QUEUED", "INITIALIZING", "UPLOADING", "PAUSED"}
@@ -295,6 +297,7 @@ MgmtStep ==
   /\ ready # <<>> /\ Head(ready) = 0
   /\ IF mq = 1
        THEN /\ mq' = 0 /\ flags' = {} /\ mpc' = "sleeping"
+            /\ managed' = IF ManagedEveryCycle THEN slots ELSE managed
             /\ ready' = Tail(ready) \o CodeGrants
             /\ grantLim' = IF NumTasks(Tail(ready) \o CodeGrants) = 0 THEN 0
                            ELSE IF CodeGrants # <<>> THEN slots ELSE grantLim
@@ -303,14 +306,23 @@ MgmtStep ==
             /\ status' = [o \in Users |-> IF o \in Dropped THEN "unknown" ELSE status[o]]
             /\ told' = ToldAfterForget(Dropped)
        ELSE /\ mpc' = "waiting" /\ ready' = Tail(ready)
-            /\ UNCHANGED <<mq, flags, grantLim, watch, status, told>>
+            /\ UNCHANGED <<mq, flags, managed, grantLim, watch, status, told>>
   /\ UNCHANGED <<slots, friend, priv, st, order, tail, truth>>
 
 \* asyncio.sleep(>= 0.05 s) ends: the timer's handle goes to the tail of the ready queue
 TimerDue ==
   /\ mpc = "sleeping"
   /\ mpc' = "due" /\ ready' = Append(ready, 0)
-  /\ UNCHANGED <<attrs, know, st, order, mq, flags, grantLim, tail>>
+  /\ UNCHANGED <<attrs, know, st, order, mq, flags, managed, grantLim, tail>>
+
+\* the idle job's wait for a request times out (1 s): if the limit is not the one the last cycle used, a cycle runs
+\* although nothing asked for one (_management_job 523-536)
+Poll ==
+  /\ SlotsChangeNotifies
+  /\ mpc = "waiting" /\ mq = 0 /\ slots # managed
+  /\ mq' = 1 /\ ready' = Append(ready, 0) /\ flags' = flags \cup {"transfer"}
+  /\ managed' = IF ManagedEveryCycle THEN managed ELSE slots
+  /\ UNCHANGED <<attrs, know, st, order, mpc, grantLim, tail>>
 
 \* first step of _initialize_upload (887): `await transfer.state.initialize()`.  The transfer's lock is
 \* free (state methods of an upload never hold it across a real wait while it is QUEUED), so the
@@ -340,6 +352,7 @@ LoopStep == Cycle \/ \E u \in Uploads : FirstStep(u)
 \* a task that is in flight comes to an end (its waits are all bounded by timeouts)
 TailStep == \E u \in Uploads : TailEnd(u)
 TimerStep == TimerDue /\ UNCHANGED budgets
+PollStep == Poll /\ UNCHANGED budgets
 
 ERequest(u) == st[u] = "NONE" /\ QueueRequest(u) /\ UNCHANGED budgets
 ERequeue(u) == st[u] # "NONE" /\ QueueRequest(u) /\ SpendLife
@@ -359,6 +372,7 @@ EPriv(o) == PrivChange(o) /\ SpendAttr
 Next ==
   \/ Cycle
   \/ TimerStep
+  \/ PollStep
   \/ \E u \in Uploads : \/ FirstStep(u) \/ ERequest(u) \/ ERequeue(u) \/ EResume(u) \/ ENegotiated(u) \/ EComplete(u)
                          \/ EFail(u) \/ EBackToQueue(u) \/ EAbort(u) \/ EPause(u) \/ TailEnd(u)
   \/ \E n \in 0..MaxSlots : ESetSlots(n)
@@ -366,7 +380,7 @@ Next ==
 
 Spec == Init /\ [][Next]_vars
 \* the event loop keeps running (ready handles are run, due timers fire); the environment owes nothing
-FairSpec == Spec /\ WF_vars(LoopStep) /\ WF_vars(TimerStep) /\ WF_vars(TailStep)
+FairSpec == Spec /\ WF_vars(LoopStep) /\ WF_vars(TimerStep) /\ WF_vars(TailStep) /\ WF_vars(PollStep)
 
 ----------------------------------------------------------------------------
 \* Properties (from the statement of C05, not from the code)
@@ -377,7 +391,7 @@ TypeOK ==
   /\ truth \in [Users -> Statuses] /\ told \in [Users -> Statuses] /\ watch \in [Users -> {"no", "asked", "yes"}]
   /\ tail \in [Uploads -> BOOLEAN]
   /\ st \in [Uploads -> States]
-  /\ mq \in 0..1 /\ mpc \in {"waiting", "sleeping", "due"} /\ flags \subseteq {"transfer"}
+  /\ managed \in 0..MaxSlots /\ mq \in 0..1 /\ mpc \in {"waiting", "sleeping", "due"} /\ flags \subseteq {"transfer"}
   /\ Len(ready) <= Cardinality(Uploads) + 1
   /\ \A i \in DOMAIN ready : ready[i] \in Uploads \cup {0}
 
